@@ -267,7 +267,7 @@ func (w *world) await(n int, what string) bool {
 	for i := 0; i < n; i++ {
 		select {
 		case <-w.tr.events:
-		case <-time.After(10 * time.Second):
+		case <-time.After(5 * time.Second):
 			w.tr.run.Fail("", "no-progress "+what)
 			return false
 		}
@@ -415,7 +415,7 @@ func scripted(r *hx.Run, rnd *hx.Rand, impl string, nops int) {
 			go func() { w.wg.Wait(); close(done) }()
 			select {
 			case <-done:
-			case <-time.After(10 * time.Second):
+			case <-time.After(5 * time.Second):
 				r.Fail("", "goroutines-stuck-after-drain")
 			}
 		}
@@ -622,7 +622,7 @@ func Run(cfg hx.Config) error {
 		replayDoubleRelease(r, impl)
 	}
 	nscen := cfg.N(150, 4000)
-	for i := 0; i < nscen; i++ {
+	for i := 0; i < nscen && !r.Stop(); i++ {
 		impl := "updates"
 		if i%2 == 1 {
 			impl = "updater"
@@ -630,7 +630,7 @@ func Run(cfg hx.Config) error {
 		scripted(r, rnd, impl, 20+rnd.Intn(60))
 	}
 	nfree := cfg.N(40, 1500)
-	for i := 0; i < nfree; i++ {
+	for i := 0; i < nfree && !r.Stop(); i++ {
 		impl := "updates"
 		if i%2 == 1 {
 			impl = "updater"
